@@ -248,6 +248,9 @@ let failat_tok (t : string) : n option =
   (* k <= -2 encodes a writer that accepts at most -k-1 bytes per call and never fails: invisible to a caller
      that uses write_all, so the model's run is the fault-free one *)
   if k < 0 then None
+  (* k >= 2_000_000 encodes the io::ErrorKind of the failure in k / 1_000_000 (failing from call k mod 1_000_000 on):
+     the kind does not matter to the crate *)
+  else if k >= 2_000_000 then Some (n_of_int (k mod 1_000_000))
   else if k >= 1_000_000 then Some (n_of_int (k - 1_000_000)) else Some (n_of_int k)
 
 let parse_ft (t : string) : (n * n list) list =
